@@ -62,16 +62,18 @@ def applyOp (S : Spec) (V : Env) (rootAttrs : List (Nat × CDv)) (w : World) : O
 def run (S : Spec) (V : Env) (rootAttrs : List (Nat × CDv)) (ops : List Op) : World :=
   ops.foldl (fun w op => (applyOp S V rootAttrs w op).1) emptyWorld
 
-/-- the larger alphabet: a core operation, `set_item_name`, `sort` -/
+/-- the larger alphabet: a core operation, `set_item_name`, `sort`, `set_reference_target` -/
 inductive OpX
   | core (op : Op)
   | rename (x : Nat) (nm : Bytes)
   | sort (x : Nat)
+  | setref (x t : Nat)
 
 def applyOpX (S : Spec) (V : Env) (rootAttrs : List (Nat × CDv)) (w : World) : OpX → World × String
   | .core op => applyOp S V rootAttrs w op
   | .rename x nm => shAns (opRename S V w x nm)
   | .sort x => shAns (opSort S V w x)
+  | .setref x t => shAns (opSetRef S V w x t)
 
 /-- the state after a history of the larger alphabet, from the empty world -/
 def runX (S : Spec) (V : Env) (rootAttrs : List (Nat × CDv)) (ops : List OpX) : World :=
